@@ -49,7 +49,7 @@ ROOT_SUBMODULES = ["refcnt", "api", "env", "cache", "access", "serde_h", "rwlock
 FLAVOURS = {
     # Kani cannot compile the std thread_local! variant of LocalNode::with (ICE in the
     # catch_unwind intrinsic); the crate's own no_std variant is used instead.
-    "nostd": ["experimental-thread-local", "weak"],
+    "nostd": ["experimental-thread-local", "weak", "serde"],
     # std build for the RwLock strategy and serde (never reaches LocalNode::with)
     "std": ["internal-test-strategies", "weak", "serde"],
 }
@@ -445,7 +445,83 @@ def load_prop_meta():
         PROP_META.update(json.load(open(p)))
 
 
+def plain_scratch():
+    base = os.environ.get("VERIF_SCRATCH_BASE") or tempfile.gettempdir()
+    d = tempfile.mkdtemp(prefix="asverif_", dir=base)
+    subprocess.check_call(["rsync", "-a", "--exclude", "/target", "--exclude", "/.git", REPO + "/", d + "/"])
+    return d
+
+
+def check_c19(tier, keep=False, only_lines=None):
+    import c19
+    t0 = time.time()
+    seed = int(os.environ.get("VERIF_SEED", "0") or 0)
+    load_prop_meta()
+    os.makedirs(EVIDENCE, exist_ok=True)
+    os.makedirs(REPLAYS, exist_ok=True)
+    evid_path = os.path.join(EVIDENCE, "C19.json")
+    if os.path.exists(evid_path):
+        os.remove(evid_path)
+    scratch = plain_scratch()
+    try:
+        src, table, canary_src, (c1, c2) = c19.generate()
+        rc, errors, dep_failed, stderr = c19.compile_crate(scratch, "c19_check", src)
+        if dep_failed or (rc != 0 and not errors):
+            log("UNDECIDED: the crate itself does not compile for the type-level check:\n" + stderr)
+            return 2
+        failed, other = [], []
+        for e in errors:
+            if e["line"] in table and e["file"].endswith("lib.rs"):
+                failed.append((table[e["line"]], e))
+            else:
+                other.append(e)
+        rc2, cerrors, cdep, cstderr = c19.compile_crate(scratch, "c19_canary", canary_src)
+        clines = set(e["line"] for e in cerrors)
+        canary_ok = (c1 in clines) and (c2 in clines)
+        undecided = []
+        if not canary_ok:
+            undecided.append("canary assertions of the wrong polarity were accepted by the type checker: machinery not trusted")
+        if other and not failed:
+            undecided.append("unexpected compile errors outside the assertion table: %s" % "; ".join(e["message"] for e in other[:3]))
+        names = sorted(set(t[0] for (t, e) in failed))
+        rcode = 0
+        if failed:
+            rp = os.path.join(REPLAYS, "C19-rustc.json")
+            json.dump({"property": "C19", "engine": "rustc", "failed_assertions": [{"name": t[0], "polarity": t[1], "statement": t[2], "compiler": e["rendered"]} for (t, e) in failed][:40],
+                       "obligation": "; ".join(names[:10]),
+                       "how_to_replay": "python3 verif.py replay replays/C19-rustc.json  (re-runs the type check on /repo's current tree)"}, open(rp, "w"), indent=1)
+            print("VIOLATION property=C19 replay=%s" % rp)
+            for (t, e) in failed[:10]:
+                log("  type-level obligation violated: %s" % t[2])
+            rcode = 1
+        elif undecided:
+            rcode = 2
+            for u in undecided:
+                log("UNDECIDED:", u)
+        n_obl = len(table)
+        n_pos = len([1 for v in table.values() if v[1] == "pos"])
+        ev = {"property_id": "C19", "tier": tier, "seed": seed, "level": "other",
+              "coverage": {
+                  "explanation": "Auto traits cannot be mentioned by a Kani or Verus obligation, so this property is decided by the Rust type checker (rustc's trait solver) on a generated crate compiled against a scratch copy of /repo: %d parametric positive lemmas (for ALL T: RefCnt+Send+Sync, each public wrapper under each strategy is Send and Sync - universally quantified, checked once), positive instances, and %d negative instances (ambiguity trick: the assertion compiles iff the type is NOT Send / NOT Sync) over pointer kinds that must not cross threads x every public wrapper x 3 strategies. Two canary assertions of the wrong polarity must be rejected." % (n_pos, n_obl - n_pos),
+                  "obligations": n_obl, "discharged": n_obl - len(names),
+                  "checker_cmd": "cargo check --offline --message-format=json (generated crate c19_check, depends on the scratch copy of /repo with features weak,internal-test-strategies)",
+                  "trusted_base": ["rustc's trait solver and coherence/auto-trait rules", "the grid of pointer kinds (Rc, Arc<Cell>, Arc<*const>, Arc<Sync+!Send>, Option<..>, Weak) is representative of non-thread-safe pointees"],
+                  "evaluations": n_obl, "distinct_nontrivial": n_obl,
+                  "samples": [v[2] for (k, v) in sorted(table.items())[:3]] + [v[2] for (k, v) in sorted(table.items())[-3:]],
+                  "canary_ok": canary_ok, "failed": names[:40], "undecided": undecided},
+              "assumptions": ["this is type checking, not deductive verification; engine = rustc", "negative facts are checked on a finite grid of instantiations, positive facts parametrically"],
+              "wall_s": round(time.time() - t0, 1), "violations": len(names)}
+        json.dump(ev, open(evid_path, "w"), indent=1)
+        log("[C19] obligations=%d failed=%d canary_ok=%s wall=%.0fs -> exit %d" % (n_obl, len(names), canary_ok, time.time() - t0, rcode))
+        return rcode
+    finally:
+        if not keep:
+            shutil.rmtree(scratch, ignore_errors=True)
+
+
 def check(prop, tier, keep=False, only=None):
+    if prop == "C19":
+        return check_c19(tier, keep)
     t_start = time.time()
     seed = int(os.environ.get("VERIF_SEED", "0") or 0)
     load_prop_meta()
@@ -663,6 +739,10 @@ def check(prop, tier, keep=False, only=None):
 
 def replay(path):
     doc = json.load(open(path))
+    if doc.get("engine") == "rustc":
+        rc = check_c19("quick")
+        print("type-level re-check on /repo's current tree: %s" % ("violation reproduced" if rc == 1 else "no violation" if rc == 0 else "undecided"))
+        return 1 if rc == 1 else 0
     if doc.get("engine") != "kani" or not doc.get("vectors"):
         print("replay file carries no input vectors (obligation: %s); verifier output follows" % doc.get("obligation", "")[:200])
         print(doc.get("verifier_output", ""))
